@@ -2891,8 +2891,16 @@ class Partitions(Expr):
         if isinstance(self.frame, Blockwise) and not isinstance(
             self.frame,
             # BlockwiseHead decides itself how many partitions it outputs,
-            # MapOverlap needs the neighbours of the selected partitions
-            (BlockwiseIO, Fused, SetIndexBlockwise, BlockwiseHead, MapOverlap),
+            # MapOverlap needs the neighbours of the selected partitions,
+            # Sample holds one random state per input partition
+            (
+                BlockwiseIO,
+                Fused,
+                SetIndexBlockwise,
+                BlockwiseHead,
+                MapOverlap,
+                Sample,
+            ),
         ):
             # With a single input partition every operand has one partition; the
             # lower-dimensional ones are no broadcasts then and are selected as well,
